@@ -77,9 +77,12 @@ def gen_spec(rng, tier, allow_scale=False):
     ranges = [[a * mscale, b * mscale] for a, b in ranges]
     freq = rng.choice([1, 2, 3, 4, 5, 7, 9])
     cap = rng.choice([max(1, freq - 2), freq, freq + 3, 1000, 2, 1])
-    return {"kind": "sliding", "dtype": rng.choice(["f", "d"]), "sol_dim": rng.randint(1, 3), "extras": rng.choice(au.EXTRA_LAYOUTS),
+    spec = {"kind": "sliding", "dtype": rng.choice(["f", "d"]), "sol_dim": rng.randint(1, 3), "extras": rng.choice(au.EXTRA_LAYOUTS),
             "lr": None, "tmin": None, "offset": rng.choice([0.0, -2.0, 1.5]), "dims": dims, "ranges": ranges,
             "remap_frequency": freq, "buffer_capacity": cap, "seed": rng.randrange(1 << 30), "mscale": mscale, "odtype": odtype}
+    if allow_scale and rng.random() < 0.35:
+        spec["relay"] = {"how": rng.choice(["deepcopy", "pickle"]), "every": rng.choice([1, 2, 3, 5])}     # see arch_util.relay
+    return spec
 
 
 def gen_ops(rng, spec, nops, force_sliver=False):
@@ -149,7 +152,8 @@ def run_impl(spec, ops):
     archive = au.make_archive(spec)
     table = {}
     trace = []
-    for op in ops:
+    for step, op in enumerate(ops):
+        archive = au.relay(archive, spec, step)      # a deep copy / pickle round trip continues exactly like the original
         ent = {"op": op[0]}
         try:
             if op[0] == "add":
